@@ -373,6 +373,48 @@ def rule_SB4(rep, prog):
                 sample={"target_loads": len(lds)})
 
 
+def rule_OD6(rep, prog):
+    rid = rep.rule("C10-OD6", "the completion event is initialised before anybody can signal or wait on it: on every way to the point where the helpers of an apply are "
+                   "pushed to the root queue (_dispatch_apply_f, reached from dispatch_apply_f and from _dispatch_apply_redirect) da_event has been initialised - by "
+                   "the function that pushes, or by every one of its callers", floor=1)
+    def is_init(fn, i):
+        if i.op == "call" and i.callee == "_dispatch_thread_event_init":
+            return True
+        return i.op == "store" and prog.fields(i) & {"da_event", "dte_value"} and i.ops[0][0] == "c" and i.ops[0][1] == 0
+    def covered(fn, at, seen):
+        """every path from the entry of fn to `at` initialises the event, or every caller of fn does before calling it"""
+        inits = [i for i in fn.all_insts() if is_init(fn, i)]
+        if any(fn.dominates(i, at) for i in inits):
+            return True, None
+        if fn.name in seen:
+            return True, None
+        callers = [(g, c) for g in prog.all_functions() for c in calls_named(g, fn.name)]
+        callers += [(g, st) for g in prog.all_functions() for st in g.all_insts() if st.op in ("store", "call") and any(o[0] == "f" and o[1] == fn.name for o in st.ops)
+                    and not (st.op == "call" and st.callee == fn.name)]
+        if not callers:
+            return False, (fn, at)
+        for g, c in callers:
+            ok, why = covered(g, c, seen + (fn.name,))
+            if not ok:
+                return False, why
+        return True, None
+    n = 0
+    for fn in prog.all_functions():
+        for c in calls_named(fn, ("_dispatch_root_queue_push_inline", "_dispatch_root_queue_push")):
+            if not any(prog.fields(l) & {"da_thr_cnt", "da_event", "da_dc"} for l in fn.all_insts() if l.op in ("load", "store", "getelementptr")):
+                continue
+            n += 1
+            rep.saw(fn)
+            ok, why = covered(fn, c, ())
+            rep.require(rid, ok, c.loc, fn.name, "helpers-pushed-before-event-init",
+                        "the helpers of a dispatch_apply are pushed in %s on a path (through %s) where da_event was never initialised: the apply context lives in a "
+                        "recycled continuation, so the event word holds whatever the previous user left there - a stale `signalled` value makes the caller return "
+                        "while helpers are still inside invocations, other values hang or trap" % (fn.name, why[0].name if why else "?"),
+                        sample={"push": c.loc})
+    if n < 1:
+        rep.unknown(rid, "no push of apply helpers found")
+
+
 def run(rep, tier="quick", srcdir=None, only=None):
     prog, units = load(UNITS, tier, srcdir)
     rep.units = units
@@ -387,6 +429,8 @@ def run(rep, tier="quick", srcdir=None, only=None):
         rule_SB4(rep, prog)
     if want("C10-AI5"):
         rule_AI5(rep, prog)
+    if want("C10-OD6"):
+        rule_OD6(rep, prog)
     if want("C05-WR3") or want("C05-OD2"):
         # dispatch_apply returns only after every invocation finished: the caller's wait on da_event (a thread event) re-validates the word after every
         # wake-up, and an apply submitted through dispatch_sync_f is run exactly once - by the caller, or remotely with dsc_func cleared (shared with C05)
